@@ -86,7 +86,7 @@ CalloutOK(c) == /\ FruOK(c.fru)
 SectionOK(s) ==
     /\ Len(s.id) = 2 /\ Len(s.comp) = 2
     /\ Layout(s) <= 65535
-    /\ CASE s.kind = "SRC" -> /\ s.wc \in 1..9
+    /\ CASE s.kind = "SRC" -> /\ s.wc \in 0..9
                               /\ Len(s.words) = 8 /\ Len(s.ascii) = 32
                               /\ BitOn(s.flags, 1) = (s.callouts # <<>>)
                               /\ (s.callouts # <<>> =>
